@@ -233,6 +233,9 @@ fn expected_present(t: &Torrent) -> bool {
 }
 
 pub fn run_plan(plan: &Plan) -> RunOut {
+    if plan.profile.starts_with("riga-") {
+        return crate::riga::run_stream(plan);
+    }
     let torrent = Arc::new(build(&plan.geometry, plan.content_seed));
     PANICS.with(|p| p.borrow_mut().clear());
 
@@ -261,6 +264,7 @@ pub fn run_plan(plan: &Plan) -> RunOut {
     let mut harness_error = None;
     let mut end = End::Deadline;
     let mut goal_ms = None;
+    let mut director_end = 0u64;
 
     match metainfo {
         Err(e) => harness_error = Some(format!("metainfo rejected by rdest: {}", e)),
@@ -286,7 +290,7 @@ pub fn run_plan(plan: &Plan) -> RunOut {
                             tokio::time::sleep(Duration::from_millis(100)).await;
                             let now = world::now_ms();
                             if world::log_len() >= 1_500_000 {
-                                return (End::EventLimit, goal_at);
+                                return (End::EventLimit, goal_at, now);
                             }
                             if plan2.stop_on_done {
                                 if goal_at.is_none() && expected_present(&t2) {
@@ -294,26 +298,27 @@ pub fn run_plan(plan: &Plan) -> RunOut {
                                 }
                                 if let Some(g) = goal_at {
                                     if now >= g + plan2.linger_ms {
-                                        return (End::Goal, goal_at);
+                                        return (End::Goal, goal_at, now);
                                     }
                                 }
                             }
                             if now >= plan2.deadline_ms {
-                                return (End::Deadline, goal_at);
+                                return (End::Deadline, goal_at, now);
                             }
                         }
                     };
                     tokio::select! {
                         biased;
                         r = director => r,
-                        _ = session.run() => (End::SessionReturned, None),
+                        _ = session.run() => (End::SessionReturned, None, world::now_ms()),
                     }
                 })
             }));
             match res {
-                Ok((e, g)) => {
+                Ok((e, g, t)) => {
                     end = e;
                     goal_ms = g;
+                    director_end = t;
                 }
                 Err(_) => end = End::SessionPanicked,
             }
@@ -321,7 +326,7 @@ pub fn run_plan(plan: &Plan) -> RunOut {
     }
 
     let log = world::take_log();
-    let end_ms = log.entries.last().map(|e| e.t_ms).unwrap_or(0);
+    let end_ms = log.entries.last().map(|e| e.t_ms).unwrap_or(0).max(director_end);
     let stats = world::take_stats();
     drop(rt);
     let w = world::take().expect("world");
